@@ -32,6 +32,7 @@ def shards(tier, seed):
             out.append({'name': 'aes-expansion-%d-%d' % (nk * 8, half), 'kind': 'aes', 'nk': nk, 'half': half, 'cost': 20})
     out.append({'name': 'aes-schedule-inv', 'kind': 'aesinv', 'cost': 5})
     out.append({'name': 'des-schedule', 'kind': 'des', 'cost': 20})
+    out.append({'name': 'histories', 'kind': 'histories', 'cost': 10})
     for r in range(16):
         out.append({'name': 'des-master-r%02d' % r, 'kind': 'master', 'round': r, 'cost': 15})
     return out
@@ -60,6 +61,7 @@ def run_shard(shard, ctx):
     if kind == 'aes': _aes(shard, ctx, col, np)
     elif kind == 'aesinv': _aesinv(ctx, col, np)
     elif kind == 'des': _des(ctx, col, np)
+    elif kind == 'histories': _histories(ctx, col, np)
     else: _master(shard, ctx, col, np)
     return col.result()
 
@@ -127,6 +129,81 @@ def _aesinv(ctx, col, np):
             if not np.array_equal(got, exp):
                 col.violation('C10/aes128/inv_key_schedule', 'inv_key_schedule default round_in does not reproduce the schedule', {})
     col.sample({'check': 'aes key_schedule / inv_key_schedule', 'rounds': 11}, limit=1)
+
+
+def _histories(ctx, col, np):
+    """The schedules have no memory: every call sequence of depth <= D over {aes.key_schedule, aes.key_expansion (forward window / backward window), aes.inv_key_schedule,
+    des.key_schedule} on the SAME argument array objects with in-place rewrites between calls returns the schedule of the CURRENT contents."""
+    import itertools
+    from scared.aes import base as aes
+    from scared.des import base as des
+    from mc.refs import aes as RA, des as RD
+    RA.selftest(); RD.selftest()
+    tier = ctx['tier']
+    depth = 4 if tier == 'quick' else 5
+    for fam in ('aes16', 'aes24', 'aes32', 'des'):
+        nk = {'aes16': 16, 'aes24': 24, 'aes32': 32, 'des': 8}[fam]
+        if fam == 'des':
+            pool = np.array(_des_keys(np, ctx['seed'])[-12:], dtype=np.uint8)
+            sched = np.array([RD.key_schedule(k.tolist()) for k in pool], dtype=np.uint8)                 # (K, 16, 8)
+            calls = {'S': lambda a: des.key_schedule(a), 'S5': lambda a: des.key_schedule(a, interrupt_after_round=5)}
+            expect = {'S': lambda i: sched[i], 'S5': lambda i: sched[i][:6]}
+        else:
+            keys, full = _aes_pool(np, ctx['seed'], nk, RA)
+            pool = keys[:12]; Nk = nk // 4; nr = Nk + 6
+            sched = full[:12].reshape(12, nr + 1, 16)
+            calls = {'S': lambda a: aes.key_schedule(a), 'X': lambda a: aes.key_expansion(a, col_in=0)}
+            expect = {'S': lambda i: sched[i], 'X': lambda i: full[i]}
+            if nk == 16:
+                # the same buffer reinterpreted as the LAST round key: the schedule that ends with the current contents
+                import numpy as _n
+                last = {}
+                def inv_expect(i, last=last):
+                    if i not in last:
+                        rk = pool[i].tolist(); w = [rk[4 * c:4 * c + 4] for c in range(4)]
+                        cols = {40 + c: w[c] for c in range(4)}
+                        for c in range(39, -1, -1):
+                            t = cols[c + 3]
+                            if (c + 4) % 4 == 0:
+                                t = [RA.SBOX[b] for b in t[1:] + t[:1]]; t = [t[0] ^ [0, 1, 2, 4, 8, 16, 32, 64, 128, 27, 54][(c + 4) // 4]] + t[1:]
+                            cols[c] = [a ^ b for a, b in zip(cols[c + 4], t)]
+                        last[i] = _n.array([b for c in range(44) for b in cols[c]], dtype=_n.uint8).reshape(11, 16)
+                    return last[i]
+                if True:
+                    calls['I'] = lambda a: aes.inv_key_schedule(a); expect['I'] = inv_expect
+        muts = ('Kall', 'Kbyte')
+        menu = list(calls) + list(muts)
+        for shape in ('single', 'stack'):
+            for seq in itertools.product(menu, repeat=depth):
+                if seq[-1] in muts or not any(e in muts for e in seq): continue
+                if any(a in muts and a == b_ for a, b_ in zip(seq, seq[1:])): continue
+                idx = [0] if shape == 'single' else [0, 1, 2]
+                cur = pool[idx].copy()                                   # tracked contents
+                K = cur[0].copy() if shape == 'single' else cur.copy()    # the array object handed to the library
+                step = 0
+                for pos, ev in enumerate(seq):
+                    if ev == 'Kall':
+                        step += 1; idx = [(step * 3 + j) % 12 for j in range(len(idx))]; K[...] = pool[idx[0]] if shape == 'single' else pool[idx]
+                    elif ev == 'Kbyte':
+                        step += 1
+                        # a one-byte change that lands on another pool key is not available: swap the LAST row for the next pool key (one row of a stack / the whole single key)
+                        idx[-1] = (idx[-1] + 5) % 12
+                        if shape == 'single': K[...] = pool[idx[0]]
+                        else: K[-1] = pool[idx[-1]]
+                    else:
+                        case = {'kind': 'history', 'family': fam, 'shape': shape, 'sequence': list(seq), 'position': pos}
+                        col.evaluations += 1; col.states += 1; col.transitions += 1
+                        try:
+                            got = np.asarray(calls[ev](K))
+                        except Exception as e:
+                            col.violation('C10/history/raised', '%s %s, call %d of %s: %s: %s' % (fam, shape, pos, list(seq), type(e).__name__, e), case); continue
+                        exp = np.array([expect[ev](i) for i in idx])
+                        if pos and any(e in muts for e in seq[:pos]): col.nontrivial += 1
+                        if got.size != exp.size or not np.array_equal(got.reshape(exp.shape), exp):
+                            col.violation('C10/history/%s' % fam, '%s %s: call %d (%s) of the sequence %s on the same key array object (rewritten in place between calls) does not return the schedule of its current '
+                                          'contents %s' % (fam, shape, pos, ev, list(seq), np.atleast_2d(K)[-1].tolist()), case)
+                col.outcomes.add((fam, shape) + seq)
+    col.sample({'check': 'call histories on reused key arrays', 'depth': depth}, limit=1)
 
 
 def _des_keys(np, seed):
